@@ -71,6 +71,11 @@ type Case struct {
 	IfaceTD       []Header `json:"iface_td,omitempty"`       // per interface (Doer, Namer, Closer); zero value = nothing at interface level
 	IfaceFilename bool     `json:"iface_filename,omitempty"` // filename written into each interface's config instead of a package-level filename template
 	Runs          int      `json:"runs,omitempty"`
+
+	// Mode "tree": several packages (a recursive parent, listed and merely discovered sub-packages, an
+	// unrelated package), header keys at any of root / package / interface level, boilerplate files from a
+	// pool; one run, one output file per package, each judged against its own effective configuration.
+	Tree *Tree `json:"tree,omitempty"`
 }
 
 func (c Case) hdr() Header {
@@ -488,7 +493,7 @@ func gen(t *rapid.T) Case {
 		Layout:    rapid.SampledFrom([]string{"test", "nontest", "separate"}).Draw(t, "layout"),
 		Ifaces:    rapid.IntRange(1, 2).Draw(t, "ifaces"),
 		Level:     rapid.SampledFrom([]string{"root", "root", "package"}).Draw(t, "level"),
-		Mode:      rapid.SampledFrom([]string{"tworun", "ifacelevel", "", "", "tworun", "", "", "ifacelevel", "", ""}).Draw(t, "mode"),
+		Mode:      rapid.SampledFrom([]string{"tree", "tworun", "ifacelevel", "", "", "tree", "", "tworun", "", "ifacelevel", "", ""}).Draw(t, "mode"),
 	}
 	set := func(h Header) {
 		c.HasTags, c.Expr, c.HasBP, c.BP, c.BPPath = h.HasTags, h.Expr, h.HasBP, h.BP, h.BPPath
@@ -543,6 +548,11 @@ func gen(t *rapid.T) Case {
 		}
 		set(last)
 		c.Prev = &prev
+
+	case "tree":
+		c.Layout = rapid.SampledFrom([]string{"test", "nontest"}).Draw(t, "treelayout")
+		c.Ifaces, c.Level, c.BPPath = 1, "root", "rel"
+		c.Tree = genTree(t)
 
 	case "ifacelevel":
 		c.Ifaces = rapid.SampledFrom([]int{2, 3, 3}).Draw(t, "nifaces")
@@ -817,25 +827,36 @@ func header(src []byte) (off int, isPackage bool, scanErrs int) {
 }
 
 type listOut struct {
+	ImportPath                                                         string
 	GoFiles, TestGoFiles, XTestGoFiles, IgnoredGoFiles, InvalidGoFiles []string
 	Error                                                              *struct{ Err string }
 }
 
-func goList(root, pkg string, tags []string) (listOut, string) {
+// goList asks the toolchain which files of the given packages take part in a build under tags.
+func goList(root string, pkgs []string, tags []string) (map[string]listOut, string) {
 	args := []string{"list", "-e"}
 	if len(tags) > 0 {
 		args = append(args, "-tags", strings.Join(tags, ","))
 	}
-	args = append(args, "-json=GoFiles,TestGoFiles,XTestGoFiles,IgnoredGoFiles,InvalidGoFiles,Error", pkg)
+	args = append(args, "-json=ImportPath,GoFiles,TestGoFiles,XTestGoFiles,IgnoredGoFiles,InvalidGoFiles,Error")
+	args = append(args, pkgs...)
 	r := vh.GoRun(root, 120*time.Second, args...)
 	if r.TimedOut {
 		vh.Infra("go list timed out")
 	}
-	var lo listOut
-	if err := json.Unmarshal([]byte(r.Stdout), &lo); err != nil {
-		vh.Infra("go list %v in %s: exit %d, undecodable output: %v\n%s", args, root, r.Exit, err, vh.Trunc(r.Both(), 1500))
+	out := map[string]listOut{}
+	dec := json.NewDecoder(strings.NewReader(r.Stdout))
+	for dec.More() {
+		var lo listOut
+		if err := dec.Decode(&lo); err != nil {
+			vh.Infra("go list %v in %s: exit %d, undecodable output: %v\n%s", args, root, r.Exit, err, vh.Trunc(r.Both(), 1500))
+		}
+		out[lo.ImportPath] = lo
 	}
-	return lo, "go " + strings.Join(args, " ")
+	if len(out) != len(pkgs) {
+		vh.Infra("go list %v in %s: exit %d, %d packages reported\n%s", args, root, r.Exit, len(out), vh.Trunc(r.Both(), 1500))
+	}
+	return out, "go " + strings.Join(args, " ")
 }
 
 func has(l []string, s string) bool {
@@ -1002,6 +1023,10 @@ func trans(prevHas, lastHas, same bool) string {
 }
 
 func run(c Case) *vh.Violation {
+	root := vh.NewScratch()
+	defer vh.RemoveAll(root)
+	vh.NewModule(root, modPath)
+
 	// ---- validate the case (generator soundness) and classify
 	h := c.hdr()
 	hi := analyse(h, c.Formatter)
@@ -1011,7 +1036,7 @@ func run(c Case) *vh.Violation {
 		uni[t] = true
 	}
 	cl := []string{"template=" + c.Template, "formatter=" + c.Formatter, "layout=" + c.Layout, "combo=" + c.Template + "+" + c.Formatter + "+" + c.Layout,
-		fmt.Sprintf("ifaces=%d", c.Ifaces), "level=" + c.Level, "mode=" + map[string]string{"": "single-run", "tworun": "two-runs", "ifacelevel": "interface-level-keys"}[c.Mode]}
+		fmt.Sprintf("ifaces=%d", c.Ifaces), "level=" + c.Level, "mode=" + map[string]string{"": "single-run", "tworun": "two-runs", "ifacelevel": "interface-level-keys", "tree": "package-tree"}[c.Mode]}
 	if c.PerIface {
 		cl = append(cl, "file-per-interface")
 	}
@@ -1055,6 +1080,8 @@ func run(c Case) *vh.Violation {
 	}
 	modeFeat := ""
 	modeNT := false
+	var treeFiles map[string]string
+	var treeExps []expect
 	type runSpec struct {
 		h  Header
 		hi headerInfo
@@ -1149,6 +1176,18 @@ func run(c Case) *vh.Violation {
 		for i := 0; i < c.Runs; i++ {
 			runs = append(runs, runSpec{h, hi})
 		}
+	case "tree":
+		if c.Tree == nil {
+			vh.Invalid()
+			vh.Infra("tree case without tree")
+		}
+		var tcl, ttags []string
+		treeFiles, treeExps, tcl, ttags = buildTree(c, root)
+		cl = append(cl, tcl...)
+		for _, t := range ttags {
+			uni[t] = true
+		}
+		modeNT = true
 	default:
 		vh.Invalid()
 		vh.Infra("unknown mode %q", c.Mode)
@@ -1172,13 +1211,62 @@ func run(c Case) *vh.Violation {
 	}
 
 	// ---- build the module and run mockery (once, twice, or Runs times)
-	root := vh.NewScratch()
-	defer vh.RemoveAll(root)
-	vh.NewModule(root, modPath)
 	combo := "mockery/" + c.Template + "+" + c.Formatter
 	var history string
 	for ri, rs := range runs {
-		files, outFiles, listPkg := build(c, rs.h, root)
+		var files map[string]string
+		var exps []expect
+		rh, rhi := rs.h, rs.hi
+		if c.Mode == "tree" {
+			files, exps = treeFiles, treeExps
+		} else {
+			var outFiles []outFile
+			var listPkg string
+			files, outFiles, listPkg = build(c, rs.h, root)
+			feat := func() string {
+				var f []string
+				if rh.HasTags {
+					f = append(f, "tags")
+				}
+				if rh.HasBP {
+					s := "boilerplate"
+					if rhi.hasBlock {
+						s += "+block"
+					}
+					if rhi.noFinalNL {
+						s += "+no-final-newline"
+					}
+					f = append(f, s)
+				}
+				s := strings.Join(f, ",")
+				if len(f) == 0 {
+					s = "plain"
+				}
+				if c.Mode == "ifacelevel" || (c.Mode == "tworun" && ri == 1) {
+					s += modeFeat
+				}
+				return s
+			}()
+			for _, of := range outFiles {
+				e := expect{path: of.path, pkg: modPath + "/" + strings.TrimPrefix(listPkg, "./"), feat: feat,
+					hasTags: rh.HasTags, expr: rh.Expr, eval: rhi.eval, printerBreaks: rhi.printerBreaks,
+					hasBP: rh.HasBP, bp: rh.BP, stable: rhi.stable}
+				// interface-level keys: whether they take effect for the interface's own file is a template design
+				// decision the property does not fix (don't-care); files without them follow the file-level settings.
+				if c.Mode == "ifacelevel" && of.iface >= 0 && of.iface < len(c.IfaceTD) {
+					if c.IfaceTD[of.iface].HasTags {
+						e.tagsDC = "interface-level-mock-build-tags(own-file)"
+						if rh.HasBP { // with or without a //go:build line: demand what go/format keeps either way
+							e.stable = min(gofmtStable(rh.BP, ""), gofmtStable(rh.BP, "anytag"))
+						}
+					}
+					if c.IfaceTD[of.iface].HasBP {
+						e.bpDC = "interface-level-boilerplate-file(own-file)"
+					}
+				}
+				exps = append(exps, e)
+			}
+		}
 		vh.WriteFiles(root, files)
 		before := vh.Snapshot(root)
 		res := vh.Mockery(root, nil)
@@ -1190,37 +1278,18 @@ func run(c Case) *vh.Violation {
 		} else {
 			history += fmt.Sprintf("=== run %d of %d: same configuration\n", ri+1, len(runs))
 		}
-		rh, rhi := rs.h, rs.hi
-		feat := func() string {
-			var f []string
-			if rh.HasTags {
-				f = append(f, "tags")
-			}
-			if rh.HasBP {
-				s := "boilerplate"
-				if rhi.hasBlock {
-					s += "+block"
-				}
-				if rhi.noFinalNL {
-					s += "+no-final-newline"
-				}
-				f = append(f, s)
-			}
-			s := strings.Join(f, ",")
-			if len(f) == 0 {
-				s = "plain"
-			}
-			if c.Mode == "ifacelevel" || (c.Mode == "tworun" && ri == 1) {
-				s += modeFeat
-			}
-			return s
-		}()
-		fail := func(diag, format string, a ...any) *vh.Violation {
+		fail := func(e *expect, diag, format string, a ...any) *vh.Violation {
 			obs := history + fmt.Sprintf("mockery exit %d\n", res.Exit)
-			if rh.HasBP {
-				obs += fmt.Sprintf("--- file-level boilerplate of this run (Go-quoted)\n%q\n", rh.BP)
+			feat := "tree"
+			if e != nil {
+				feat = e.feat
+				if e.hasBP && e.bpDC == "" {
+					obs += fmt.Sprintf("--- boilerplate demanded in %s (Go-quoted)\n%q\n", e.path, e.bp)
+				}
+			} else if len(exps) > 0 && c.Mode != "tree" {
+				feat = exps[0].feat
 			}
-			for _, of := range outFiles {
+			for _, of := range exps {
 				if b, err := os.ReadFile(filepath.Join(root, of.path)); err == nil {
 					hd := string(b)
 					if i := strings.Index(hd, "\nimport"); i > 0 {
@@ -1237,14 +1306,14 @@ func run(c Case) *vh.Violation {
 			return vh.Violate(combo+"/"+feat+"/"+diag, format, a...).With(t, obs)
 		}
 		if res.Panicked() {
-			return fail("panic", "mockery panicked on a documented configuration")
+			return fail(nil, "panic", "mockery panicked on a documented configuration")
 		}
 		if res.Exit != 0 {
-			return fail("exit-nonzero:"+normDiag(res.Stderr+"\n"+res.Stdout), "mockery exited %d on a documented configuration (run %d)", res.Exit, ri+1)
+			return fail(nil, "exit-nonzero:"+normDiag(res.Stderr+"\n"+res.Stdout), "mockery exited %d on a documented configuration (run %d)", res.Exit, ri+1)
 		}
 		// which files get written is C07/C10's subject; a mismatch here means the harness misjudged the layout
 		isOut := map[string]bool{}
-		for _, of := range outFiles {
+		for _, of := range exps {
 			isOut[of.path] = true
 			if _, err := os.Stat(filepath.Join(root, of.path)); err != nil {
 				vh.Infra("expected output file %s is missing after run %d\n%s", of.path, ri+1, vh.Trunc(res.Both(), 1500))
@@ -1255,35 +1324,44 @@ func run(c Case) *vh.Violation {
 				vh.Infra("mockery touched an unexpected Go file %s in run %d", d, ri+1)
 			}
 		}
-		if v := judge(c, rh, rhi, root, outFiles, listPkg, universe, fail); v != nil {
+		if v := judge(c.Formatter, root, exps, universe, fail); v != nil {
 			return v
 		}
 	}
 	return nil
 }
 
-// judge applies the oracle to the output files as they are after one run whose file-level header
-// settings were rh.
-func judge(c Case, rh Header, rhi headerInfo, root string, outFiles []outFile, listPkg string, universe []string,
-	fail func(diag, format string, a ...any) *vh.Violation) *vh.Violation {
-	// interface-level keys: whether they take effect for the interface's own file is a template design
-	// decision the property does not fix (don't-care); files without them follow the file-level settings.
-	ifaceTags := func(of outFile) bool {
-		return c.Mode == "ifacelevel" && of.iface >= 0 && of.iface < len(c.IfaceTD) && c.IfaceTD[of.iface].HasTags
-	}
-	ifaceBP := func(of outFile) bool {
-		return c.Mode == "ifacelevel" && of.iface >= 0 && of.iface < len(c.IfaceTD) && c.IfaceTD[of.iface].HasBP
-	}
+// expect is what the oracle demands of one output file.
+type expect struct {
+	path string // relative to the module root
+	pkg  string // import path of the package the file belongs to
+	feat string // feature part of the violation key
 
+	tagsDC        string // non-empty: clause (iii) is don't-care for this file, with the reason
+	hasTags       bool
+	expr          string
+	eval          evalFn
+	printerBreaks bool
+
+	bpDC   string // non-empty: clause (ii) is don't-care for this file, with the reason
+	hasBP  bool
+	bp     string
+	stable int
+}
+
+// judge applies the oracle to the output files as they are after one run.
+func judge(formatter, root string, exps []expect, universe []string,
+	fail func(e *expect, diag, format string, a ...any) *vh.Violation) *vh.Violation {
 	// ---- (i) marker and (ii) boilerplate, per written file
-	for _, of := range outFiles {
+	for i := range exps {
+		of := &exps[i]
 		src, err := os.ReadFile(filepath.Join(root, of.path))
 		if err != nil {
 			vh.Infra("read %s: %v", of.path, err)
 		}
 		off, isPkg, _ := header(src)
 		if !isPkg {
-			return fail("header/first-token-not-package", "%s: the first non-comment token is not the package clause", of.path)
+			return fail(of, "header/first-token-not-package", "%s: the first non-comment token is not the package clause", of.path)
 		}
 		marker := false
 		for _, ln := range strings.Split(string(src[:off]), "\n") {
@@ -1293,33 +1371,33 @@ func judge(c Case, rh Header, rhi headerInfo, root string, outFiles []outFile, l
 			}
 		}
 		if !marker {
-			return fail("marker/missing-before-package", "%s: no line matching %s before the package clause", of.path, markerRe)
+			return fail(of, "marker/missing-before-package", "%s: no line matching %s before the package clause", of.path, markerRe)
 		}
 		fset := token.NewFileSet()
 		pf, perr := parser.ParseFile(fset, of.path, src, parser.ParseComments|parser.PackageClauseOnly)
 		if perr != nil {
-			return fail("header/unparsable", "%s: header does not parse: %v", of.path, perr)
+			return fail(of, "header/unparsable", "%s: header does not parse: %v", of.path, perr)
 		}
 		if !ast.IsGenerated(pf) {
-			return fail("marker/not-recognised-by-go/ast.IsGenerated", "%s: go/ast.IsGenerated reports false", of.path)
+			return fail(of, "marker/not-recognised-by-go/ast.IsGenerated", "%s: go/ast.IsGenerated reports false", of.path)
 		}
-		if ifaceBP(of) {
-			vh.DontCare("interface-level-boilerplate-file(own-file)")
+		if of.bpDC != "" {
+			vh.DontCare(of.bpDC)
 			continue
 		}
-		if rh.HasBP {
-			cr := core(rh.BP)
+		if of.hasBP {
+			cr := core(of.bp)
 			demand := 2 // whole core, byte-for-byte
-			if c.Formatter != "noop" {
-				demand = rhi.stable
+			if formatter != "noop" {
+				demand = of.stable
 			}
 			found := bytes.Contains(src[:off], []byte(cr))
 			switch {
 			case found:
 			case demand == 1 && containsInOrder(src[:off], chunks(cr)):
-				vh.DontCare("boilerplate-split-or-blank-lines-collapsed-by-" + c.Formatter + "(comment-groups-verbatim)")
+				vh.DontCare("boilerplate-split-or-blank-lines-collapsed-by-" + formatter + "(comment-groups-verbatim)")
 			case demand == 0:
-				vh.DontCare("boilerplate-comment-text-normalised-by-" + c.Formatter)
+				vh.DontCare("boilerplate-comment-text-normalised-by-" + formatter)
 			default:
 				what := "boilerplate/not-verbatim"
 				if bytes.Contains(src, []byte(cr)) {
@@ -1327,7 +1405,7 @@ func judge(c Case, rh Header, rhi headerInfo, root string, outFiles []outFile, l
 				} else if t := strings.TrimSpace(cr); t != cr && bytes.Contains(src[:off], []byte(t)) {
 					what = "boilerplate/whitespace-trimmed"
 				}
-				return fail(what, "%s: the boilerplate content does not occur verbatim before the package clause", of.path)
+				return fail(of, what, "%s: the boilerplate content does not occur verbatim before the package clause", of.path)
 			}
 		}
 	}
@@ -1335,15 +1413,15 @@ func judge(c Case, rh Header, rhi headerInfo, root string, outFiles []outFile, l
 	// ---- (iii) build-constraint effectiveness: all 2^n assignments of every tag the case mentions
 	type verdict struct {
 		set       []string
-		want      bool
-		lo        listOut
+		asg       map[string]bool
+		lo        map[string]listOut
 		cmd       string
 		infraText string
 	}
 	var verdicts []verdict
 	if len(universe) == 0 {
 		// no constraint anywhere: always included, also when unrelated tags are set
-		verdicts = []verdict{{want: true}, {set: []string{"foo", "integ"}, want: true}}
+		verdicts = []verdict{{asg: map[string]bool{}}, {set: []string{"foo", "integ"}, asg: map[string]bool{"foo": true, "integ": true}}}
 	} else {
 		for m := 0; m < 1<<len(universe); m++ {
 			set := assignment(universe, m)
@@ -1353,7 +1431,15 @@ func judge(c Case, rh Header, rhi headerInfo, root string, outFiles []outFile, l
 					on = append(on, t)
 				}
 			}
-			verdicts = append(verdicts, verdict{set: on, want: !rh.HasTags || rhi.eval(set)})
+			verdicts = append(verdicts, verdict{set: on, asg: set})
+		}
+	}
+	var pkgs []string
+	seenPkg := map[string]bool{}
+	for _, of := range exps {
+		if !seenPkg[of.pkg] {
+			seenPkg[of.pkg] = true
+			pkgs = append(pkgs, of.pkg)
 		}
 	}
 	var wg sync.WaitGroup
@@ -1373,7 +1459,7 @@ func judge(c Case, rh Header, rhi headerInfo, root string, outFiles []outFile, l
 					panic(r)
 				}
 			}()
-			v.lo, v.cmd = goList(root, listPkg, v.set)
+			v.lo, v.cmd = goList(root, pkgs, v.set)
 		}(&verdicts[i])
 	}
 	wg.Wait()
@@ -1382,34 +1468,40 @@ func judge(c Case, rh Header, rhi headerInfo, root string, outFiles []outFile, l
 			vh.Infra("%s", v.infraText)
 		}
 	}
-	for _, of := range outFiles {
-		if ifaceTags(of) {
-			vh.DontCare("interface-level-mock-build-tags(own-file)")
+	for i := range exps {
+		of := &exps[i]
+		if of.tagsDC != "" {
+			vh.DontCare(of.tagsDC)
 			continue
 		}
-		if rh.HasTags && rhi.printerBreaks {
-			vh.DontCare("constraint-after-" + c.Formatter + "-printed-double-negation")
+		if of.hasTags && of.printerBreaks {
+			vh.DontCare("constraint-after-" + formatter + "-printed-double-negation")
 			continue
 		}
 		for _, v := range verdicts {
+			lo, ok := v.lo[of.pkg]
+			if !ok {
+				vh.Infra("go list did not report package %s", of.pkg)
+			}
+			want := !of.hasTags || of.eval(v.asg)
 			base := filepath.Base(of.path)
-			included := has(v.lo.GoFiles, base) || has(v.lo.TestGoFiles, base) || has(v.lo.XTestGoFiles, base)
-			ignored := has(v.lo.IgnoredGoFiles, base)
-			detail := fmt.Sprintf("%s\n  -> GoFiles=%v TestGoFiles=%v XTestGoFiles=%v IgnoredGoFiles=%v InvalidGoFiles=%v", v.cmd, v.lo.GoFiles, v.lo.TestGoFiles, v.lo.XTestGoFiles, v.lo.IgnoredGoFiles, v.lo.InvalidGoFiles)
+			included := has(lo.GoFiles, base) || has(lo.TestGoFiles, base) || has(lo.XTestGoFiles, base)
+			ignored := has(lo.IgnoredGoFiles, base)
+			detail := fmt.Sprintf("%s\n  -> %s: GoFiles=%v TestGoFiles=%v XTestGoFiles=%v IgnoredGoFiles=%v InvalidGoFiles=%v", v.cmd, of.pkg, lo.GoFiles, lo.TestGoFiles, lo.XTestGoFiles, lo.IgnoredGoFiles, lo.InvalidGoFiles)
 			if included == ignored {
-				vl := fail("constraint/file-not-classified-by-go-list", "%s: go list neither includes nor ignores the file under tags %v", of.path, v.set)
+				vl := fail(of, "constraint/file-not-classified-by-go-list", "%s: go list neither includes nor ignores the file under tags %v", of.path, v.set)
 				vl.Observed += "\n--- " + detail
 				return vl
 			}
-			if included != v.want {
+			if included != want {
 				diag := "constraint/included-although-expression-false"
 				if !included {
 					diag = "constraint/excluded-although-expression-true"
 				}
-				if !rh.HasTags {
+				if !of.hasTags {
 					diag = "constraint/excluded-without-mock-build-tags"
 				}
-				vl := fail(diag, "%s: with tags %v the file-level expression %q evaluates to %v but the toolchain included=%v", of.path, v.set, rh.Expr, v.want, included)
+				vl := fail(of, diag, "%s: with tags %v the effective expression %q evaluates to %v but the toolchain included=%v", of.path, v.set, of.expr, want, included)
 				vl.Observed += "\n--- " + detail
 				return vl
 			}
